@@ -565,7 +565,7 @@ def build_unit(ws, unit_name):
                 raise ExtractError("unknown directive: " + st)
             i += 1
             continue
-        mexpr = re.search(r'/\*@@expr source="([^"]+)" anchor="([^"]+)"\*/', ln)
+        mexpr = re.search(r'/\*@@expr source="([^"]+)" anchor="([^"]+)"(?: end="([^"]+)")?\*/', ln)
         if mexpr:
             path = os.path.join(ws, mexpr.group(1))
             if not os.path.exists(path):
@@ -577,7 +577,7 @@ def build_unit(ws, unit_name):
             if pos < 0:
                 raise ExtractError("lost anchor: `%s` not found in %s" % (mexpr.group(2), mexpr.group(1)))
             st_i = idx[pos + len(a) - 1] + 1
-            en_i = text.index(";", st_i)
+            en_i = text.index(mexpr.group(3) or ";", st_i)
             val = text[st_i:en_i].strip()
             out.append(ln.replace(mexpr.group(0), val))
             report.append({"source": mexpr.group(1), "anchor": mexpr.group(2), "expr": val})
@@ -650,7 +650,8 @@ def classify(stderr):
         if any(k in h for k in ("postcondition not satisfied", "precondition not satisfied", "assertion failed",
                                 "invariant not satisfied", "possible arithmetic", "possible bit shift",
                                 "decreases not satisfied", "could not prove termination", "possible division by zero",
-                                "recommendation not met", "index out of bounds", "possible truncation", "unreachable")):
+                                "recommendation not met", "index out of bounds", "possible truncation", "unreachable",
+                                "expression simplifies to", "bitvector assertion not satisfied", "requires not satisfied")):
             failed.append({"message": head, "line": where, "detail": blk[:1200]})
         elif "rlimit" in h or "resource limit" in h or "timed out" in h:
             undecided.append("solver resource limit: " + head)
